@@ -27,6 +27,21 @@
 //!  * `repair <variant> <seed>`     oracle only: as `repo`, then a seeded subset of index files (variant all|some|none +
 //!       optional `-readall`) is deleted, `repair_index` runs, then `check` must be clean and every snapshot must read
 //!       back identically.
+//!  * `pw <dlimit> <tlimit> <fail|-> <adds>`  correspondence for the pack-WRITER model (`Model/PackWriter.lean`): adds =
+//!       `<t|d><len>[x<count>]` joined by `,` (count distinct blobs of `len` plaintext bytes, ids = running number); the real
+//!       packer pipeline (hook `pack_blobs`: data `Packer` + tree `Packer` + shared `Indexer`) runs on a repository without
+//!       compression, fixed pack size limits (grow factor 0); `fail` = position (in the backend's write log) of the one
+//!       write that fails (only generated for single-lane cases, whose log positions are deterministic).
+//!       -> `res=<ok|err> D=<pack writes of the data lane> T=<…tree lane> I=<index file writes> ordered=<bool>`, pack write =
+//!          `<file length>/<first blob>+<#blobs>/<ok|f>` (lane cut after its first failed write), index write =
+//!          `<t|d><first blob>+<#blobs>` of every listed pack, sorted, joined by `+`, `/ok` — or `?/f`; `ordered` = the
+//!          predicate of theorem `index_only_after_write` evaluated on the recorded log.
+//!  * `order <variant> <seed>`      oracle only: real commands (variant backup | prune | copy: histories on small packs;
+//!       tiny: the packer pipeline on > 50,000 tiny blobs, so that the `Indexer` saves an index file on its own;
+//!       tinyfail / backupfail: the same with one failing backend write; bigbackup (thorough): a real backup of one file of
+//!       > 50,000 distinct 32-byte chunks, odd seeds with one failing write); the recorded `MemBackend` log must show, before
+//!       every index file write, a successful write of every pack the file lists, with the listed size
+//!       (`oracle-fail:index-before-pack`), and at the end every listed pack must exist (`oracle-fail:indexed-pack-missing`).
 use std::collections::{BTreeMap, BTreeSet};
 use std::num::NonZeroU32;
 use std::sync::Arc;
@@ -429,8 +444,57 @@ pub fn generate(thorough: bool, rng: &mut Rng, ops: &mut Vec<String>, stats: &mu
         stats.hit(format!("repo.{v}"));
         ops.push(format!("c08 repo {v} {}", rng.below(1 << 40)));
     }
-    let rv = ["all", "some", "none", "all-readall", "some-readall", "badhint"];
-    let n_rep = if thorough { 60 } else { 12 };
+    // --- pack writer model: adds over both lanes with small pack size limits; single-lane cases also with one failing write
+    for i in 0..(if thorough { 400 } else { 60 }) {
+        let single = rng.chance(1, 2);
+        let groups = 1 + rng.below(6);
+        let mut adds = Vec::new();
+        let mut total = 0u64;
+        for _ in 0..groups {
+            let t = if single || rng.chance(2, 3) { 'd' } else { 't' };
+            let len = match rng.below(5) {
+                0 => 0,
+                1 => 1,
+                2 => rng.below(40),
+                _ => rng.below(300),
+            };
+            let c = match rng.below(4) {
+                0 => 1,
+                1 => 1 + rng.below(4),
+                _ => 1 + rng.below(if thorough { 120 } else { 40 }),
+            };
+            total += c;
+            adds.push(if c == 1 && rng.chance(1, 2) { format!("{t}{len}") } else { format!("{t}{len}x{c}") });
+        }
+        let dl = *rng.pick(&[1u64, 100, 500, 1500, 5000, 1 << 20]);
+        let tl = *rng.pick(&[1u64, 100, 500, 1 << 20]);
+        let fail = if single && rng.chance(1, 2) {
+            stats.hit("pw.with-failing-write");
+            // anywhere from the first pack write to (sometimes) beyond the last operation
+            rng.below(3 + total.min(12)).to_string()
+        } else {
+            "-".to_string()
+        };
+        stats.hit(if single { "pw.single-lane" } else { "pw.two-lanes" });
+        stats.add("pw.blobs", total);
+        if thorough && i == 0 {
+            // more blobs than the indexer's MAX_COUNT in one lane: the index file auto-save is part of the model's answer
+            stats.hit("pw.index-auto-save");
+            ops.push(format!("c08 pw {} {} - d1x{}", 1u64 << 30, 1u64 << 30, 50_001 + rng.below(3000)));
+        }
+        ops.push(format!("c08 pw {dl} {tl} {fail} {}", adds.join(",")));
+    }
+    // --- order of pack and index writes in recorded logs of real commands
+    let ov: &[(&str, usize, usize)] =
+        &[("backup", 2, 10), ("prune", 2, 10), ("copy", 1, 5), ("tiny", 1, 4), ("tinyfail", 2, 14), ("backupfail", 4, 30), ("bigbackup", 2, 6)];
+    for (v, q, t) in ov {
+        for _ in 0..(if thorough { *t } else { *q }) {
+            stats.hit(format!("order.{v}"));
+            ops.push(format!("c08 order {v} {}", rng.below(1 << 40)));
+        }
+    }
+    let rv = ["all", "some", "none", "all-readall", "some-readall", "none-readall", "badhint"];
+    let n_rep = if thorough { 70 } else { 14 };
     for i in 0..n_rep {
         let v = rv[i % rv.len()];
         stats.hit(format!("repair.{v}"));
@@ -791,8 +855,13 @@ fn config_for(rng: &mut Rng) -> ConfigOptions {
 }
 
 fn build(rng: &mut Rng, variant: &str) -> Result<Scenario, String> {
+    build_on(MemBackend::new(), MemBackend::new(), rng, variant)
+}
+
+/// `be2` is the backend of the target repository of the `copy` variant.
+fn build_on(be: MemBackend, be2: MemBackend, rng: &mut Rng, variant: &str) -> Result<Scenario, String> {
     let cfg = config_for(rng);
-    let (h, _repo) = RepoHandle::init_nocache(MemBackend::new(), None, &cfg).map_err(|e| errkind(&e))?;
+    let (h, _repo) = RepoHandle::init_nocache(be, None, &cfg).map_err(|e| errkind(&e))?;
     let max_len = 60_000;
     let mut snaps = Vec::new();
     let n_files = 4 + rng.below(8) as usize;
@@ -854,7 +923,7 @@ fn build(rng: &mut Rng, variant: &str) -> Result<Scenario, String> {
         }
         "copy" => {
             let cfg2 = config_for(rng);
-            let (h2, _r2) = RepoHandle::init_nocache(MemBackend::new(), None, &cfg2).map_err(|e| errkind(&e))?;
+            let (h2, _r2) = RepoHandle::init_nocache(be2, None, &cfg2).map_err(|e| errkind(&e))?;
             {
                 let src_repo = h.open_nocache().map_err(|e| errkind(&e))?.to_indexed().map_err(|e| errkind(&e))?;
                 let dst = h2.open_nocache().map_err(|e| errkind(&e))?.to_indexed_ids().map_err(|e| errkind(&e))?;
@@ -939,6 +1008,35 @@ fn exec_repair(variant: &str, seed: u64) -> String {
         Ok(s) => s,
         Err(e) => return e,
     };
+    let mut sc = sc;
+    // "all subsets of index files": make sure there are several index files to choose from (a prune leaves a single one)
+    let mut round = 10u64;
+    while sc.h.be.ids(FileType::Index).len() < 3 && which != "badhint" {
+        // other files than before: new names and times (equal name + size + mtime would be taken from the parent snapshot)
+        let mut entries = Vec::new();
+        for mut e in gen_source(&mut rng, 3, 20_000).entries {
+            if let repo::SrcKind::File(_) = e.kind {
+                if let Some(last) = e.path.last_mut() {
+                    last.extend_from_slice(format!("-r{round}").as_bytes());
+                }
+                e.mtime_s += round as i64 * 100;
+                entries.push(e);
+            }
+        }
+        let src = MemSource::new(entries);
+        let snap = match SnapshotOptions::default().to_snapshot() {
+            Ok(s) => s,
+            Err(e) => return errkind(&e),
+        };
+        match repo::backup_nocache(&sc.h, &src, &BackupOptions::default(), snap) {
+            Ok(s) => sc.snaps.push((s, expected_with_root(&src))),
+            Err(e) => return errkind(&e),
+        }
+        round += 1;
+        if round > 16 {
+            break;
+        }
+    }
     let idx = sc.h.be.ids(FileType::Index);
     if which == "badhint" {
         // One index file listing every pack; the entry of the smallest pack is inflated with repeated blobs so that the
@@ -1159,6 +1257,406 @@ fn exec_rix(read_all: bool, packs: &str, files: &str) -> String {
     format!("ok {} ?{unknown}", if v.is_empty() { "-".to_string() } else { v.join(",") })
 }
 
+
+// ------------------------------------------------------------------ pack writer: order of pack and index writes
+
+type Removed = Arc<std::sync::Mutex<BTreeMap<Id, Bytes>>>;
+
+/// Keep the content of every index file at the moment it is removed (prune), so that the log can be decoded afterwards.
+fn capture_removed_index(be: &MemBackend) -> Removed {
+    let removed: Removed = Arc::new(std::sync::Mutex::new(BTreeMap::new()));
+    let (r2, b2) = (removed.clone(), be.clone());
+    be.set_gate(Some(Arc::new(move |_k, op: &repo::LogOp| {
+        if !op.write && op.tpe == FileType::Index {
+            if let Some(c) = b2.get(FileType::Index, &op.id) {
+                _ = r2.lock().unwrap().insert(op.id, c);
+            }
+        }
+    })));
+    removed
+}
+
+/// The index files written according to the log, decoded: position in the log -> packs listed (unmarked).
+fn decode_index_writes(h: &RepoHandle, removed: Option<&Removed>) -> Result<Vec<(usize, bool, Option<IndexFile>)>, String> {
+    let key = rustic_core::verif::keyfile::master_key_to_key(&h.key);
+    let scratch = MemBackend::new();
+    let dbe = DecryptBackend::new(Arc::new(scratch.clone()) as Arc<dyn WriteBackend>, key);
+    let mut out = Vec::new();
+    for (k, op) in h.be.log().iter().enumerate() {
+        if !(op.write && op.tpe == FileType::Index) {
+            continue;
+        }
+        if !op.applied {
+            out.push((k, false, None));
+            continue;
+        }
+        let raw = h.be.get(FileType::Index, &op.id).or_else(|| removed.and_then(|r| r.lock().unwrap().get(&op.id).cloned()));
+        let Some(raw) = raw else { return Err("oracle-fail:index-content-lost".into()) };
+        scratch.put_raw(FileType::Index, op.id, raw);
+        let f: IndexFile = dbe.get_file(&rustic_core::repofile::IndexId::from(op.id)).map_err(|_| "oracle-fail:index-unreadable".to_string())?;
+        out.push((k, true, Some(f)));
+    }
+    Ok(out)
+}
+
+/// `Ordered` of `Model/PackWriter.lean` on the recorded log: every applied index file write is preceded by an applied
+/// write of every pack it lists (unmarked), of the listed size.  Returns (#index writes checked, #pack listings checked).
+fn order_check(h: &RepoHandle, removed: Option<&Removed>) -> Result<(usize, usize), String> {
+    let idx = decode_index_writes(h, removed)?;
+    let log = h.be.log();
+    let mut written: BTreeMap<Id, usize> = BTreeMap::new();
+    let mut next = 0usize;
+    let (mut n_idx, mut n_packs) = (0, 0);
+    for (k, op) in log.iter().enumerate() {
+        if op.tpe == FileType::Pack && op.applied {
+            if op.write {
+                _ = written.insert(op.id, op.len);
+            } else {
+                _ = written.remove(&op.id);
+            }
+        }
+        while next < idx.len() && idx[next].0 < k {
+            next += 1;
+        }
+        if next < idx.len() && idx[next].0 == k {
+            if let Some(f) = &idx[next].2 {
+                n_idx += 1;
+                for p in &f.packs {
+                    n_packs += 1;
+                    match written.get(&Id::from(*p.id)) {
+                        None => return Err("oracle-fail:index-before-pack".into()),
+                        Some(l) if *l as u64 != u64::from(p.pack_size()) => return Err("oracle-fail:index-size-vs-written".into()),
+                        _ => {}
+                    }
+                }
+            }
+        }
+    }
+    Ok((n_idx, n_packs))
+}
+
+/// Final state: every index file in the store lists (unmarked) only packs that exist with the listed size.
+fn listed_packs_exist(h: &RepoHandle) -> Result<(), String> {
+    let key = rustic_core::verif::keyfile::master_key_to_key(&h.key);
+    let dbe = DecryptBackend::new(Arc::new(h.be.clone()) as Arc<dyn WriteBackend>, key);
+    for id in h.be.ids(FileType::Index) {
+        let f: IndexFile = dbe.get_file(&rustic_core::repofile::IndexId::from(id)).map_err(|_| "oracle-fail:index-unreadable".to_string())?;
+        for p in &f.packs {
+            match h.be.get(FileType::Pack, &Id::from(*p.id)) {
+                None => return Err("oracle-fail:indexed-pack-missing".into()),
+                Some(b) if b.len() as u64 != u64::from(p.pack_size()) => return Err("oracle-fail:index-size-vs-file".into()),
+                _ => {}
+            }
+        }
+    }
+    Ok(())
+}
+
+fn label_id(k: u64) -> Id {
+    let mut b = [0u8; 32];
+    b[..8].copy_from_slice(&k.to_be_bytes());
+    b[31] = 0xC8;
+    Id::new(b)
+}
+
+fn id_label(id: &[u8; 32]) -> u64 {
+    u64::from_be_bytes(id[..8].try_into().unwrap())
+}
+
+fn pw_config(dl: u64, tl: u64) -> ConfigOptions {
+    ConfigOptions::default()
+        .set_compression(0)
+        .set_datapack_size(bytesize::ByteSize(dl))
+        .set_treepack_size(bytesize::ByteSize(tl))
+        .set_datapack_growfactor(0u32)
+        .set_treepack_growfactor(0u32)
+}
+
+fn parse_pw_adds(adds: &str) -> Option<Vec<(BlobType, usize, usize)>> {
+    let mut v = Vec::new();
+    if adds == "-" {
+        return Some(v);
+    }
+    for a in adds.split(',') {
+        let t = match a.as_bytes().first()? {
+            b't' => BlobType::Tree,
+            b'd' => BlobType::Data,
+            _ => return None,
+        };
+        let rest = &a[1..];
+        let (l, c) = match rest.split_once('x') {
+            Some((l, c)) => (l.parse().ok()?, c.parse().ok()?),
+            None => (rest.parse().ok()?, 1usize),
+        };
+        v.push((t, l, c));
+    }
+    Some(v)
+}
+
+fn exec_pw(dl: u64, tl: u64, fail: Option<usize>, adds: &str) -> String {
+    let Some(adds) = parse_pw_adds(adds) else { return "bad-op".into() };
+    let (h, repo) = match RepoHandle::init_nocache(MemBackend::new(), None, &pw_config(dl, tl)) {
+        Ok(x) => x,
+        Err(e) => return errkind(&e),
+    };
+    let mut blobs = Vec::new();
+    let mut k = 0u64;
+    for (t, len, c) in adds {
+        for _ in 0..c {
+            let data: Vec<u8> = (0..len).map(|i| (k as u8).wrapping_add((i as u8).wrapping_mul(7))).collect();
+            blobs.push((t, data, BlobId::from(label_id(k))));
+            k += 1;
+        }
+    }
+    h.be.clear_log();
+    h.be.set_fail_only(fail);
+    let res = rustic_core::verif::packer::pack_blobs(&repo, blobs);
+    h.be.set_fail_only(None);
+    drop(repo);
+    let key = rustic_core::verif::keyfile::master_key_to_key(&h.key);
+    let mut lanes: [Vec<String>; 2] = [vec![], vec![]];
+    let mut cut = [false, false];
+    for op in h.be.log() {
+        if !(op.write && op.tpe == FileType::Pack) {
+            continue;
+        }
+        let lane = usize::from(op.cacheable);
+        if cut[lane] {
+            continue;
+        }
+        if !op.applied {
+            lanes[lane].push(format!("{}/?/f", op.len));
+            cut[lane] = true;
+            continue;
+        }
+        let Some(bytes) = h.be.get(FileType::Pack, &op.id) else { return "oracle-fail:written-pack-missing".into() };
+        let n = bytes.len();
+        if n < 4 {
+            return "oracle-fail:pack-too-short".into();
+        }
+        let hl = u32::from_le_bytes(bytes[n - 4..].try_into().unwrap()) as usize;
+        if hl + 4 > n {
+            return "oracle-fail:header-length-field".into();
+        }
+        let Ok(plain) = key.decrypt_data(&bytes[n - 4 - hl..n - 4]) else { return "oracle-fail:header-mac".into() };
+        let Some(own) = parse_header_independent(&plain) else { return "oracle-fail:header-unparsable".into() };
+        if own.iter().any(|e| e.0 != op.cacheable) {
+            return "oracle-fail:blob-type-vs-lane".into();
+        }
+        let first = own.first().map_or(0, |e| id_label(&e.3));
+        lanes[lane].push(format!("{n}/{first}+{}/ok", own.len()));
+    }
+    let idx = match decode_index_writes(&h, None) {
+        Ok(i) => i,
+        Err(e) => return e,
+    };
+    let mut iw = Vec::new();
+    for (_, applied, f) in &idx {
+        match (applied, f) {
+            (true, Some(f)) => {
+                let mut names: Vec<String> = f
+                    .packs
+                    .iter()
+                    .map(|p| p.blobs.first().map_or("e".to_string(), |b| format!("{}{}+{}", t_str(b.tpe), id_label(&id_bytes(&b.id)), p.blobs.len())))
+                    .collect();
+                names.sort();
+                iw.push(format!("{}/ok", names.join("+")));
+            }
+            _ => iw.push("?/f".to_string()),
+        }
+    }
+    let ordered = match order_check(&h, None) {
+        Ok(_) => true,
+        Err(e) if e == "oracle-fail:index-before-pack" || e == "oracle-fail:index-size-vs-written" => false,
+        Err(e) => return e,
+    };
+    if let Err(e) = listed_packs_exist(&h) {
+        return e;
+    }
+    let j = |v: &Vec<String>| if v.is_empty() { "-".to_string() } else { v.join(",") };
+    format!("res={} D={} T={} I={} ordered={ordered}", if res.is_ok() { "ok" } else { "err" }, j(&lanes[0]), j(&lanes[1]), j(&iw))
+}
+
+fn exec_order(variant: &str, seed: u64) -> String {
+    let mut rng = Rng::new(seed);
+    match variant {
+        "backup" | "prune" | "copy" => {
+            let (be, be2) = (MemBackend::new(), MemBackend::new());
+            let removed = capture_removed_index(&be);
+            let removed2 = capture_removed_index(&be2);
+            let scen = match variant {
+                "prune" => *rng.pick(&["prune-fast", "prune-copy", "prune-all"]),
+                v => v,
+            };
+            let sc = match build_on(be.clone(), be2.clone(), &mut rng, scen) {
+                Ok(s) => s,
+                Err(e) => return e,
+            };
+            be.set_gate(None);
+            be2.set_gate(None);
+            let rm = if variant == "copy" { &removed2 } else { &removed };
+            match order_check(&sc.h, Some(rm)) {
+                Ok((_, n)) if n == 0 => return "oracle-fail:no-pack-listed".into(),
+                Ok(_) => {}
+                Err(e) => return e,
+            }
+            if let Err(e) = listed_packs_exist(&sc.h) {
+                return e;
+            }
+            "ok".into()
+        }
+        "tiny" | "tinyfail" => {
+            // more blobs than `indexer::constants::MAX_COUNT`: the indexer saves an index file while packs are still being written
+            let (h, repo) = match RepoHandle::init_nocache(MemBackend::new(), None, &pw_config(1 << 30, 1 << 30)) {
+                Ok(x) => x,
+                Err(e) => return errkind(&e),
+            };
+            let n = 50_001 + rng.below(12_000);
+            let tree_every = if rng.chance(1, 2) { 0 } else { 50 + rng.below(400) };
+            let mut blobs = Vec::with_capacity(n as usize);
+            for k in 0..n {
+                let t = if tree_every > 0 && k % tree_every == 0 { BlobType::Tree } else { BlobType::Data };
+                let len = 1 + (k % 3) as usize;
+                blobs.push((t, vec![k as u8; len], BlobId::from(label_id(k))));
+            }
+            h.be.clear_log();
+            // ≥ 5 data packs, the tree pack, ≥ 2 index files
+            let fail = if variant == "tinyfail" { Some(rng.below(7) as usize) } else { None };
+            h.be.set_fail_only(fail);
+            let res = rustic_core::verif::packer::pack_blobs(&repo, blobs);
+            h.be.set_fail_only(None);
+            drop(repo);
+            let failed = h.be.log().iter().any(|o| !o.applied);
+            if failed && res.is_ok() {
+                return "oracle-fail:failed-write-not-reported".into();
+            }
+            if !failed && res.is_err() {
+                return "oracle-fail:error-without-fault".into();
+            }
+            let (n_idx, n_packs) = match order_check(&h, None) {
+                Ok(x) => x,
+                Err(e) => return e,
+            };
+            if let Err(e) = listed_packs_exist(&h) {
+                return e;
+            }
+            if !failed {
+                // fault-free: the indexer saved on its own at least once, and every stored pack is listed
+                let packs = h.be.ids(FileType::Pack).len();
+                if n_idx < 2 {
+                    return "oracle-fail:no-index-auto-save".into();
+                }
+                if n_packs != packs {
+                    return "oracle-fail:packs-written-vs-indexed".into();
+                }
+            }
+            "ok".into()
+        }
+        "bigbackup" => {
+            // a real backup whose data packer hands more than `indexer::constants::MAX_COUNT` blobs to the indexer: one file of
+            // > 50,000 distinct 32-byte chunks (fixed-size chunker); odd seeds: one backend write fails
+            let cfg = ConfigOptions::default()
+                .set_chunker(rustic_core::repofile::Chunker::FixedSize)
+                .set_chunk_size(bytesize::ByteSize(32))
+                .set_compression(0);
+            let (h, _repo) = match RepoHandle::init_nocache(MemBackend::new(), None, &cfg) {
+                Ok(x) => x,
+                Err(e) => return errkind(&e),
+            };
+            let n = 50_100 + rng.below(4_000);
+            let mut content = Vec::with_capacity(n as usize * 32);
+            for k in 0..n {
+                let mut block = [0u8; 32];
+                block[..8].copy_from_slice(&k.to_le_bytes());
+                block[8..16].copy_from_slice(&seed.to_le_bytes());
+                content.extend_from_slice(&block);
+            }
+            let src = MemSource::new(vec![SrcEntry::file(&[b"big"], &content), SrcEntry::file(&[b"small"], b"x")]);
+            let before = h.be.log().len();
+            let fail = if seed % 2 == 1 { Some(before + rng.below(8) as usize) } else { None };
+            h.be.set_fail_only(fail);
+            let snap = match SnapshotOptions::default().to_snapshot() {
+                Ok(s) => s,
+                Err(e) => return errkind(&e),
+            };
+            let res = repo::backup_nocache(&h, &src, &BackupOptions::default(), snap);
+            h.be.set_fail_only(None);
+            let failed = h.be.log().iter().any(|o| !o.applied);
+            if failed && res.is_ok() {
+                return "oracle-fail:failed-write-not-reported".into();
+            }
+            if !failed && res.is_err() {
+                return "oracle-fail:error-without-fault".into();
+            }
+            let (n_idx, _) = match order_check(&h, None) {
+                Ok(x) => x,
+                Err(e) => return e,
+            };
+            if let Err(e) = listed_packs_exist(&h) {
+                return e;
+            }
+            if let Ok(s) = res {
+                if n_idx < 2 {
+                    return "oracle-fail:no-index-auto-save".into();
+                }
+                let sc = Scenario { h, snaps: vec![(s, expected_with_root(&src))] };
+                if let Err(e) = read_all(&sc) {
+                    return e;
+                }
+                if let Err(e) = verify_packs(&sc.h) {
+                    return e;
+                }
+            }
+            "ok".into()
+        }
+        "backupfail" => {
+            // one backup, then a second one during which one backend write fails
+            let cfg = config_for(&mut rng);
+            let (h, _repo) = match RepoHandle::init_nocache(MemBackend::new(), None, &cfg) {
+                Ok(x) => x,
+                Err(e) => return errkind(&e),
+            };
+            let nf = 6 + rng.below(6) as usize;
+            let src = gen_source(&mut rng, nf, 60_000);
+            let snap = match SnapshotOptions::default().to_snapshot() {
+                Ok(s) => s,
+                Err(e) => return errkind(&e),
+            };
+            let s1 = match repo::backup_nocache(&h, &src, &BackupOptions::default(), snap) {
+                Ok(s) => s,
+                Err(e) => return errkind(&e),
+            };
+            let src2 = mutate_source(&mut rng, &src, 60_000, 1);
+            let before = h.be.log().len();
+            let k = before + rng.below(8) as usize;
+            h.be.set_fail_only(Some(k));
+            let snap = match SnapshotOptions::default().to_snapshot() {
+                Ok(s) => s,
+                Err(e) => return errkind(&e),
+            };
+            let res = repo::backup_nocache(&h, &src2, &BackupOptions::default(), snap);
+            h.be.set_fail_only(None);
+            let failed = h.be.log().iter().any(|o| !o.applied);
+            if failed && res.is_ok() {
+                return "oracle-fail:failed-write-not-reported".into();
+            }
+            if let Err(e) = order_check(&h, None) {
+                return e;
+            }
+            if let Err(e) = listed_packs_exist(&h) {
+                return e;
+            }
+            // the first snapshot still reads back
+            let sc = Scenario { h, snaps: vec![(s1, expected_with_root(&src))] };
+            if let Err(e) = read_all(&sc) {
+                return e;
+            }
+            "ok".into()
+        }
+        _ => "bad-op".into(),
+    }
+}
+
 pub fn exec(t: &[&str]) -> String {
     let t: Vec<String> = t.iter().map(|s| (*s).to_string()).collect();
     guarded(move || match t.iter().map(String::as_str).collect::<Vec<_>>().as_slice() {
@@ -1166,6 +1664,17 @@ pub fn exec(t: &[&str]) -> String {
         ["parse", h] => exec_parse(h),
         ["pack", t, adds, reads] => exec_pack(t, adds, reads),
         ["rix", ra, packs, files] if *ra == "0" || *ra == "1" => exec_rix(*ra == "1", packs, files),
+        ["pw", dl, tl, fail, adds] => {
+            let f = if *fail == "-" { Some(None) } else { fail.parse::<usize>().ok().map(Some) };
+            match (dl.parse::<u64>(), tl.parse::<u64>(), f) {
+                (Ok(dl), Ok(tl), Some(f)) => exec_pw(dl, tl, f, adds),
+                _ => "bad-op".into(),
+            }
+        }
+        ["order", variant, seed] => match seed.parse::<u64>() {
+            Ok(s) if ["backup", "prune", "copy", "tiny", "tinyfail", "backupfail", "bigbackup"].contains(variant) => exec_order(variant, s),
+            _ => "bad-op".into(),
+        },
         ["repo", variant, seed] => match seed.parse::<u64>() {
             Ok(s) if ["backup", "prune-fast", "prune-copy", "prune-all", "copy", "merge"].contains(variant) => exec_repo(variant, s),
             _ => "bad-op".into(),
